@@ -54,7 +54,7 @@ def deps_of(vfile):
     return sorted(seen)
 
 
-def build(prop_files):
+def build(prop_files, thorough=False):
     """prop_files: Properties/Cxx.v (relative to coq/).  -> dict with status and details"""
     info = {'translate_ok': False, 'make_ok': False, 'obligations': 0, 'discharged': 0, 'assumptions': [],
             'axioms_reported': [], 'forbidden': [], 'errors': [], 'cone': [], 'wall_s': 0.0}
@@ -131,19 +131,47 @@ def build(prop_files):
             if not built:
                 info['errors'].append('%s did not build' % pf)
                 continue
-            # re-check the property file itself to read its Print Assumptions answers
+            # audit: Print Assumptions for EVERY theorem of the property file (and the generated-table
+            # obligations of its cone), asked in a separate file so that no theorem can escape it
             os.makedirs(os.path.join(ROOT, 'build', 'audit'), exist_ok=True)
-            rc3, out3 = sh('timeout 600 coqc -Q . AS %s -o %s' % (pf, os.path.join(ROOT, 'build', 'audit', os.path.basename(pf)[:-2] + '.vo')), cwd=COQ)
+            mod = pf[:-2].replace('/', '.')
+            audit_v = os.path.join(ROOT, 'build', 'audit', os.path.basename(pf)[:-2] + '_audit.v')
+            gen_mods = sorted(set(c[:-2].replace('/', '.') for c in cone if re.match(r'Proofs/Gen\w+\.v$', c)))
+            with open(audit_v, 'w') as fh:
+                fh.write('From AS Require Import %s.\n' % mod)
+                for gm in gen_mods:
+                    fh.write('From AS Require %s.\n' % gm)
+                for th in theorems:
+                    fh.write('Print Assumptions %s.\n' % th)
+                for c in cone:
+                    if re.match(r'Proofs/Gen\w+\.v$', c):
+                        for g in re.findall(r'^\s*(?:Theorem|Lemma)\s+(\w+)', strip_comments(open(os.path.join(COQ, c)).read()), re.M):
+                            fh.write('Print Assumptions AS.%s.%s.\n' % (c[:-2].replace('/', '.'), g))
+            rc3, out3 = sh('timeout 900 coqc -Q . AS %s -o %s' % (audit_v, audit_v[:-2] + '.vo'), cwd=COQ)
             if rc3 != 0:
                 info['errors'].append('%s: audit compile failed: %s' % (pf, out3[-300:]))
                 continue
             blocks = [b.strip() for b in re.split(r'(?=Closed under the global context|Axioms:)', out3) if b.strip()]
             closed = sum(1 for b in blocks if b.startswith('Closed under the global context'))
             axioms = [b for b in blocks if b.startswith('Axioms:')]
-            info['assumptions'].append('%s: %d theorem(s) closed under the global context, %d with axioms' % (pf, closed, len(axioms)))
+            info['assumptions'].append('%s: Print Assumptions asked for %d theorem(s)/obligation(s): %d closed under the global context, %d with axioms' % (
+                pf, len(theorems) + len(gen_obl), closed, len(axioms)))
             for a in axioms:
                 info['axioms_reported'].append(' '.join(a.split())[:300])
+            if closed + len(axioms) != len(theorems) + len(gen_obl):
+                info['errors'].append('%s: audit answered %d of %d Print Assumptions' % (pf, closed + len(axioms), len(theorems) + len(gen_obl)))
+                continue
             info['discharged'] += len(theorems) + len(gen_obl)
+            if thorough:
+                # independent re-check of the compiled property file and everything it depends on
+                mod = 'AS.' + pf[:-2].replace('/', '.')
+                rc4, out4 = sh('timeout 3000 coqchk -silent -o -Q . AS %s' % mod, cwd=COQ, timeout=3100)
+                summary = out4[out4.index('CONTEXT SUMMARY'):] if 'CONTEXT SUMMARY' in out4 else out4[-400:]
+                info['coqchk'] = ' '.join(summary.split())[:700]
+                if rc4 != 0:
+                    info['errors'].append('coqchk failed on %s: %s' % (mod, out4[-300:]))
+                elif '* Axioms: <none>' not in summary:
+                    info['axioms_reported'].append('coqchk: ' + info['coqchk'][:300])
     finally:
         fcntl.flock(lock, fcntl.LOCK_UN)
         lock.close()
